@@ -16,8 +16,24 @@ claim("C11",
       "math.Pow replaced by its documented contract on the domain used; the statistical statement (frequencies proportional to weights) is outside this technique: only the functional reduction to E-S keys is decided. FindAnswer/AdditionalSection wiring is covered with the handler world (C01/C13) when built.",
       "DESIGN.md 4/C11")
 claim("C19",
-      "Sliding window: the real cleaner() goroutine driven by a stub ticker and stub clock (arbitrary non-decreasing whole-second readings), k <= 3 adds and t <= 2 ticks (quick; 5/3 thorough) in solver-chosen order: after every tick the retained samples are exactly the non-expired added samples in order, and Stats.Get() exports their min/max/avg (0,0,0 when empty). The counter/query-log part is decided in the handler world when built.",
-      "time.Now/time.NewTicker substituted (clock in whole seconds); expiry observed at tick granularity; counters and query log clauses not yet covered in this session.",
+      "Sliding window: the real cleaner() goroutine driven by a stub ticker and stub clock (arbitrary non-decreasing whole-second readings), k <= 3 adds and t <= 2 ticks (quick; 5/3 thorough) in solver-chosen order: after every tick the retained samples are exactly the non-expired added samples in order, and Stats.Get() exports their min/max/avg (0,0,0 when empty). Counters and query log: real ServeDNSWithRCODE in the handler world (query space of C13) with recording Stats/Logger/ResponseWriter: DNS_queries and the type counter exactly once, outcome counters equal what the written response dictates, every composed response logged exactly once as the very message written, one cache outcome per query.",
+      "time.Now/time.NewTicker substituted (clock in whole seconds); expiry observed at tick granularity; concurrent counter updates (sum of increments under interleaving) are not yet explored.",
       "DESIGN.md 4/C19")
-for p in ["C01","C02","C03","C04","C05","C06","C07","C08","C09","C10","C12","C13","C14","C18","C20"]:
+claim("C03",
+      "N <= 2 symbolic subnets of one map (16 address bytes, symbolic prefix length 0..128 kept symbolic through net.CIDRMask/IPMask.Size, family, location) go through the real accumulator, Rearranger.AddLocation/Rearrange (sort, location stack, squash), Rrangepoint/Rnet MarshalMap and prefix sets into a model store; the real rdbdriver/cdbdriver GetLocationByMap answers a symbolic client (address, family, prefix length, truncated and non-truncated). Result (location, matched length) equals the longest-prefix-match oracle on every path. Four genuine defects found this way were repaired in /repo (see known_findings.jsonl).",
+      "RocksDB/CDB replaced by store models with their documented contracts (SeekForPrev; exact-match multi-value get); validity predicate: a subnet is not declared twice in a map, IPv6 subnets other than ::/0 do not overlap ::ffff:0:0/96, family-2 client addresses are not IPv4-mapped; N=3, free (non-nested) pairs and full 16-byte symbolic IPv6 addresses only in the thorough tier; the name-to-map step (FindMap) is exercised with concrete maps in the handler world, not yet with symbolic names.",
+      "DESIGN.md 4/C03")
+claim("C10",
+      "Handler world (real ServeDNSWithRCODE, FindLocation/EcsLocation, miekg/dns, coredns request) with a symbolic ECS option (family 1: any source length/address/scope; family 2: pool of source lengths, 4 symbolic address bytes; family 0) on names with and without a client-subnet map, three storage layouts, uncached and cache-hit paths: OPT present iff in the query, ECS echoed with family/source/address unchanged, unknown options dropped, scope = deciding subnet length / 24|48 default / 0 without map, never above the family width.",
+      "Known finding C10-refused-no-ecs (REFUSED replies omit the ECS option) is excluded by a named predicate and re-confirmed on every run; subnets of the ECS map are the concrete ones of the handler world (symbolic subnets are C03); BADVERS replies judged under C13.",
+      "DESIGN.md 4/C10")
+claim("C13",
+      "Real ServeDNSWithRCODE over four worlds (zone with delegation/wildcard/CNAME/maps, root zone, root delegation, empty database) on three storage layouts: query name from a lattice with one free label byte from 13 character classes, qtype from a pool of 11 (DS, ANY, unassigned included), symbolic ID/flags/opcode/class, OPT with symbolic version/size/flags, ECS of family 0/1/2, an unknown option, UDP or TCP: no panic escapes, at most one reply, reply has the query's ID and question, QR set, Pack() succeeds, fits the advertised size or has TC, BADVERS for version != 0.",
+      "Known finding C13-badvers-empty-question (coredns zeroes the question of BADVERS replies) excluded by a named predicate and re-confirmed on every run; raw wire bytes (dns.Msg.Unpack) are not part of the harness: messages are built to satisfy Unpack's post-condition.",
+      "DESIGN.md 4/C13")
+claim("C18",
+      "Parameter lists of k <= 2 (quick) / 3 (thorough) keys chosen by the solver from the seven supported ones (order, duplicates, mandatory contents incl. itself/missing/repeated) with symbolic value parts (port digits, ALPN bytes, IPv4 hint digits, ECH bytes through base64): real FromText/ToWire/ToText; accepted lists have strictly increasing keys, decode with miekg/dns SVCB.unpack to exactly the declared values, print/parse gives identical wire bytes; lists violating the mandatory rules or repeating a key are rejected.",
+      "IPv6 hints come from a pool of three textual addresses (textual IPv6 is stdlib code, not the subject); ALPN ids of 1-2 bytes without ; | and double quote; lists longer than 3 keys outside.",
+      "DESIGN.md 4/C18")
+for p in ["C01","C02","C04","C05","C06","C07","C08","C09","C12","C14","C20"]:
     na(p, "check not built yet in this session (work in progress; see DESIGN.md section 7 build order)")
